@@ -46,7 +46,9 @@ RegistryOK == SameAsPinned /\ WellFormedRegistry(Reg) /\ WellFormedRegistry(Ref)
 \* cases: every registered entry of the PINNED registry and unregistered probes around them
 NameOfTag(t) == IF \E i \in Idx(Ref.tags) : Ref.tags[i][1] = t
                 THEN Ref.tags[CHOOSE i \in Idx(Ref.tags) : Ref.tags[i][1] = t][2] ELSE ""
-Probes == UNION {{t + 512, t + 1024, t + 65536, t + 4096} : t \in TagNums(Ref)} \cup {4325376, FirstTag + Len(Ref.tags), FirstTag + Len(Ref.tags) + 1, 5505025, 1, 16777215}
+Probes == UNION {{t + 512, t + 1024, t + 65536, t + 4096} : t \in TagNums(Ref)} \cup {4325376, FirstTag + Len(Ref.tags), FirstTag + Len(Ref.tags) + 1, 5505025, 1, 16777215,
+           \* numbers wider than the three bytes of a KMIP tag: an int all the same for the library, and not the registered tag their low 24 bits spell
+           16777216, 16777216 + FirstTag, 21102593, 268435456 + FirstTag + 1, 2147483647}
 TagCases == {[kind |-> "tag", tag |-> t, name |-> NameOfTag(t), value |-> 0, vname |-> ""] : t \in TagNums(Ref) \cup (Probes \ TagNums(Ref))}
 MaxVal(e) == CHOOSE v \in {e[3][k][1] : k \in Idx(e[3])} : \A k \in Idx(e[3]) : e[3][k][1] <= v
 EnumCases == UNION {
